@@ -47,6 +47,12 @@ Theorem C19_topic_grammar : forall t : list Z,
 Proof. exact topic_grammar. Qed.
 Print Assumptions C19_topic_grammar.
 
+(* ... and every non-empty topic publish() accepts is a valid topic name in the sense of C11 *)
+Theorem C19_accepted_topics_are_C11_topics : forall t : list Z,
+  topic_check t = Ok 0 -> t <> [] -> valid_topic t = true.
+Proof. exact accepted_topics_are_valid. Qed.
+Print Assumptions C19_accepted_topics_are_C11_topics.
+
 (* 2. publish(): which exception, exactly when (ValueError wins over TypeError when both apply).
    The size condition is the MQTT one: the PUBLISH packet (2 + topic + packet id + v5 properties +
    payload) must fit the 268,435,455-byte Remaining Length. *)
